@@ -405,10 +405,19 @@ class Eval(FnContract):
                      z3.And(L.is_Str(p[2]), Val.s(p[2]) == L.UF('str_rstrip', I, I)(Val.s(ctx['expr']))))
             ex.prove('C11:%s:parses-with-its-own-parser' % n, ['C11'], p[1] == ctx['self'])
         ex.prove('C07:%s:parses-once' % n, ['C07', 'C17', 'C01', 'C20'], len(parses) <= 1)
+        # every tree this call evaluates (ast_names, then the program) runs on exactly [builtins copy, host names]:
+        # the callee keeps the stack as it found it (Scopes), so the stack after the call is the one it ran on
+        pushes = [e for e in ex.events if e[0] == 'push_scope']
+        if sds:
+            sref = Val.lref(ex.get_field(sds[0][2], 'scopes'))
+            for c in calls:
+                hc = c[6]
+                ex.prove('C10:%s:every-tree-is-evaluated-on-builtins-plus-host-names' % n, ['C%02d' % k for k in range(1, 21)],
+                         z3.And(hc.llen(sref) == 2, hc.lelt(sref, 1) == pushes[0][2]) if pushes else False)
         if outcome[0] == 'return':
             tree = parse_tree(L.UF('str_rstrip', I, I)(Val.s(ctx['expr'])))
             if calls:
-                ex.prove('C07:%s:yields-what-the-tree-evaluates-to' % n, ['C07'],
+                ex.prove('C07:%s:yields-what-the-tree-evaluates-to' % n, ['C%02d' % k for k in range(1, 21)],
                          z3.And(calls[-1][2] == tree, outcome[1] == calls[-1][4]))
             else:
                 ex.prove('C07:%s:empty-program-yields-None' % n, ['C07'],
@@ -490,7 +499,7 @@ class EvalGhost(F.Family):
         n = 'SqParser.eval'
         sds = [e for e in ex.events if e[0] == 'construct' and e[1] == 'ScopedDict']
         # every property whose builtin specs speak about the published table relies on the layout
-        TBL = ['C10', 'C02', 'C03', 'C04', 'C05', 'C11', 'C13', 'C19']
+        TBL = ['C%02d' % k for k in range(1, 21)]      # where names resolve is behind the statement of every property
         pushes = [e for e in ex.events if e[0] == 'push_scope']
         copies = [e for e in ex.events if e[0] == 'dict_copy']
         ex.prove('C10:%s:one-scoped-names-built-before-the-state' % n, TBL, len(sds) == 1)
@@ -515,7 +524,14 @@ class EvalGhost(F.Family):
 
 
 def eval_loop(ex, env, i):
-    return []
+    # the ast_names loop keeps the scope stack at [builtins copy, host names]
+    sds = [e for e in ex.events if e[0] == 'construct' and e[1] == 'ScopedDict']
+    pushes = [e for e in ex.events if e[0] == 'push_scope']
+    if not sds or not pushes:
+        return []
+    sref = Val.lref(ex.get_field(sds[0][2], 'scopes'))
+    return [('scope-stack-is-builtins-plus-host-names', ['C10', 'C07', 'C11'],
+             z3.And(ex.heap.llen(sref) == 2, ex.heap.lelt(sref, 1) == pushes[0][2]))]
 
 
 def eval_loop_axioms(ex, env, i):
